@@ -20,7 +20,7 @@ From OxiVerif Require Import Base.Common Spec.Filter Spec.Adam7 Spec.Sem Model.T
   Proofs.Bridge Proofs.PixelProofs Proofs.FilterProofs Proofs.ImageLift Proofs.LiftReductions Proofs.LiftColor
   Proofs.LiftPalette Proofs.LiftLines Proofs.LiftBits Proofs.LiftInterlace Proofs.PipelineLossless Proofs.FilterStream Proofs.EmittedStream.
 From OxiVerif Require Import Model.Interlace.
-From OxiVerif Require Import Spec.Decode Spec.DecodeFile Model.Headers Model.PngData Proofs.OutputProofs Proofs.OutputDecode Proofs.FileLevel.
+From OxiVerif Require Import Spec.Decode Spec.DecodeFile Model.Headers Model.PngData Proofs.OutputProofs Proofs.OutputDecode Proofs.FileLevel Proofs.UnfilterImage.
 
 (* 16 -> 8 bit reduction: every pixel (samples whose two bytes are equal) keeps its exact RGBA
    value, colour key included (this is the statement that was false before fix 13ac031) *)
@@ -189,6 +189,21 @@ Theorem C01_file_decodes_partial : forall (L : leaves) e o img max_size c pic (i
   spec_decode_png inflate (output p') = Some pic.
 Proof. exact emitted_file_decodes_partial. Qed.
 Print Assumptions C01_file_decodes_partial.
+
+(* THE INPUT SIDE: the image that PngImage::new builds from a header and the compressed image data means exactly what the
+   specification's decoder makes of the inflated stream under that header (so `means pic` above is what the input FILE's IDAT
+   content decodes to; the chunk-level parse of the input into header, palette, key and IDAT is tied by correspondence) *)
+Theorem C01_parsed_image_means : forall (e : env) (hd : ihdr) (compressed : list Z) (img : image),
+  png_image_new e hd compressed = Ok img ->
+  depth_legal (spec_color_of (ctype hd)) (depth hd) = true -> 1 <= bpp hd ->
+  spec_raw_size (width hd) (height hd) (bpp hd) (interlaced hd) true <= usize_max ->
+  0 <= width hd -> 0 <= height hd ->
+  (forall x n y, z_inflate e x n = Ok y -> bytes_ok y) ->
+  exists stream, z_inflate e compressed (raw_data_size hd) = Ok stream /\ hdr img = hd /\ bytes_ok (data img) /\
+    spec_unfilter (width hd) (height hd) (bpp hd) (interlaced hd) stream = Some (data img) /\
+    sem img = spec_decode_stream (width hd) (height hd) (spec_color_of (ctype hd)) (depth hd) (interlaced hd) stream.
+Proof. exact png_image_new_sem. Qed.
+Print Assumptions C01_parsed_image_means.
 
 (* non-vacuity: the witness of finding F1 (4x2 gray16, pixels 3434 1212 0000 ffff, key 0x1234):
    after the fix the key is dropped because it can match no pixel *)
